@@ -155,6 +155,8 @@ Step ==
        [] t.ev = "near" ->         \* C02 "updating replaces the vector", for a vector one bit away from the stored one
             /\ UNCHANGED <<store, cfg, insOnly>>
             /\ viol' = viol \cup (IF t.err = "" /\ t.want = t.got THEN {} ELSE {<<l, "Map">>})
+                            \* ... and C07 clause 1: a search under a cancelled context is exact or fails (cgot = <<"err">>)
+                            \cup (IF t.err # "" \/ t.cgot = t.cwant \/ t.cgot = <<"err">> THEN {} ELSE {<<l, "SmallExact">>})
        [] t.ev \in {"loading", "damaged"} ->   \* marker written before each stream load / a load of truncated bytes:
             UNCHANGED <<store, cfg, insOnly, viol>>  \* recorded by the harness, not judged (C08 is about complete output)
        [] t.ev = "stream" ->
